@@ -50,6 +50,7 @@ pub fn locale(v: &[u8]) -> String {
             return format!("INCONSISTENT from_str {:?} vs from_bytes {:?}", r2, r);
         }
     }
+    if unic_locale::Locale::from_bytes(v).ok() != r.as_ref().ok().cloned() { return "INCONSISTENT unic_locale::Locale (facade) vs unic_locale_impl::Locale".into(); }
     match unic_locale_impl::parser::parse_locale(v) {
         Ok(l2) => if r.as_ref().ok() != Some(&l2) { return "INCONSISTENT parse_locale vs from_bytes".into(); },
         Err(_) => if r.is_ok() { return "INCONSISTENT parse_locale vs from_bytes".into(); },
@@ -57,6 +58,8 @@ pub fn locale(v: &[u8]) -> String {
     match r { Ok(l) => format!("OK {}", fmt_loc(&l)), Err(_) => "ERR".into() }
 }
 pub fn loc_canonicalize(v: &[u8]) -> String {
+    // the facade crate re-exports the same function
+    if unic_locale::canonicalize(v).ok() != unic_locale_impl::canonicalize(v).ok() { return "INCONSISTENT unic_locale::canonicalize vs unic_locale_impl::canonicalize".into(); }
     match unic_locale_impl::canonicalize(v) {
         Ok(s) => match unic_locale_impl::canonicalize(&s) {
             Ok(s2) if s2 == s => format!("OK {}", s),
@@ -126,6 +129,17 @@ pub fn loc_conv(v: &[u8]) -> String {
             let back2: LanguageIdentifier = via.into();
             if back2 != raw { return "LAWFAIL LanguageIdentifier -> Locale -> LanguageIdentifier is not the identity (raw parts)".into(); }
             if raw.to_string() != li.to_string() { return "LAWFAIL raw-parts rebuild prints differently".into(); }
+            // whatever == says about the two representations, equal values hash equally and compare Equal
+            if raw == li && (hash_of(&raw) != hash_of(&li) || raw.cmp(&li) != std::cmp::Ordering::Equal) {
+                return "LAWFAIL equal identifiers hash or order differently (raw-parts rebuild)".into();
+            }
+            // Clone::clone_from must leave an equal value whatever the target held before
+            let mut c: Locale = "ca-ES-valencia-u-foo-ca-buddhist-t-de-h0-hybrid-x-bar".parse().unwrap();
+            c.clone_from(&l);
+            if c != l || c.to_string() != l.to_string() { return "LAWFAIL clone_from(&x) != x (Locale)".into(); }
+            let mut ci: LanguageIdentifier = "ca-Latn-ES-valencia-fonipa".parse().unwrap();
+            ci.clone_from(&li);
+            if ci != li || hash_of(&ci) != hash_of(&li) || ci.cmp(&li) != std::cmp::Ordering::Equal { return "LAWFAIL clone_from(&x) != x (LanguageIdentifier)".into(); }
             format!("{} {}", fmt_li(&li), fmt_loc(&back))
         }
         Err(_) => "BADARG".into(),
@@ -380,9 +394,18 @@ fn grow_op(rng: &mut Rng, ops: &mut Vec<Vec<u8>>, focus: usize, have: &mut Vec<V
         let x = have.remove(k);
         code = rem;
         if focus == 0 { pl = have.clone(); shuffle(rng, &mut pl); } else { pl.push(recase(rng, &x)); }
+    } else if focus == 0 && have.len() >= 2 && rng.chance(1, 2) {
+        // set_variants with as many arguments as are stored, all of them stored, one repeated
+        code = add;
+        let drop = rng.below(have.len());
+        have.remove(drop);
+        pl = have.clone();
+        let d = rng.pick(&pl).clone();
+        pl.push(recase(rng, &d));
+        shuffle(rng, &mut pl);
     } else {
         code = has;
-        pl.push(if rng.chance(2, 3) { rng.pick(have).clone() } else { fresh(rng) });
+        pl.push(if rng.chance(2, 3) { let y = rng.pick(have).clone(); recase(rng, &y) } else { fresh(rng) });
     }
     ops.push(vec![code]);
     ops.push(pl.len().to_string().into_bytes());
